@@ -23,7 +23,7 @@ class Session:
             return
         self.errpath = os.path.join(tree.dir, 'sess-%d.err' % os.getpid())
         self.errf = open(self.errpath, 'w')
-        env = dict(os.environ, ASAN_OPTIONS='detect_leaks=0:exitcode=99', UBSAN_OPTIONS='print_stacktrace=1:exitcode=98')
+        env = dict(os.environ, ASAN_OPTIONS='detect_leaks=0:exitcode=99', UBSAN_OPTIONS='print_stacktrace=1:exitcode=98', TZ='XXX5')
         self.p = subprocess.Popen([self.exe], stdin=subprocess.PIPE, stdout=subprocess.PIPE, stderr=self.errf,
                                   text=True, bufsize=1, errors='replace', env=env)
         line = self.p.stdout.readline()
